@@ -2606,8 +2606,8 @@ impl Server {
         let min_score = match &parts[2] {
             RespFrame::BulkString(Some(bytes)) => {
                 match String::from_utf8_lossy(bytes).parse::<f64>() {
-                    Ok(n) => n,
-                    Err(_) => return Ok(RespFrame::error("ERR min or max is not a float")),
+                    Ok(n) if !n.is_nan() => n,
+                    _ => return Ok(RespFrame::error("ERR min or max is not a float")),
                 }
             }
             _ => return Ok(RespFrame::error("ERR invalid min score format")),
@@ -2617,8 +2617,8 @@ impl Server {
         let max_score = match &parts[3] {
             RespFrame::BulkString(Some(bytes)) => {
                 match String::from_utf8_lossy(bytes).parse::<f64>() {
-                    Ok(n) => n,
-                    Err(_) => return Ok(RespFrame::error("ERR min or max is not a float")),
+                    Ok(n) if !n.is_nan() => n,
+                    _ => return Ok(RespFrame::error("ERR min or max is not a float")),
                 }
             }
             _ => return Ok(RespFrame::error("ERR invalid max score format")),
@@ -2673,8 +2673,8 @@ impl Server {
         let max_score = match &parts[2] {
             RespFrame::BulkString(Some(bytes)) => {
                 match String::from_utf8_lossy(bytes).parse::<f64>() {
-                    Ok(n) => n,
-                    Err(_) => return Ok(RespFrame::error("ERR min or max is not a float")),
+                    Ok(n) if !n.is_nan() => n,
+                    _ => return Ok(RespFrame::error("ERR min or max is not a float")),
                 }
             }
             _ => return Ok(RespFrame::error("ERR invalid max score format")),
@@ -2684,8 +2684,8 @@ impl Server {
         let min_score = match &parts[3] {
             RespFrame::BulkString(Some(bytes)) => {
                 match String::from_utf8_lossy(bytes).parse::<f64>() {
-                    Ok(n) => n,
-                    Err(_) => return Ok(RespFrame::error("ERR min or max is not a float")),
+                    Ok(n) if !n.is_nan() => n,
+                    _ => return Ok(RespFrame::error("ERR min or max is not a float")),
                 }
             }
             _ => return Ok(RespFrame::error("ERR invalid min score format")),
@@ -2740,10 +2740,8 @@ impl Server {
         let min_score = match &parts[2] {
             RespFrame::BulkString(Some(bytes)) => {
                 match String::from_utf8_lossy(bytes).parse::<f64>() {
-                    Ok(n)
-
- => n,
-                    Err(_) => return Ok(RespFrame::error("ERR min or max is not a float")),
+                    Ok(n) if !n.is_nan() => n,
+                    _ => return Ok(RespFrame::error("ERR min or max is not a float")),
                 }
             }
             _ => return Ok(RespFrame::error("ERR invalid min score format")),
@@ -2753,8 +2751,8 @@ impl Server {
         let max_score = match &parts[3] {
             RespFrame::BulkString(Some(bytes)) => {
                 match String::from_utf8_lossy(bytes).parse::<f64>() {
-                    Ok(n) => n,
-                    Err(_) => return Ok(RespFrame::error("ERR min or max is not a float")),
+                    Ok(n) if !n.is_nan() => n,
+                    _ => return Ok(RespFrame::error("ERR min or max is not a float")),
                 }
             }
             _ => return Ok(RespFrame::error("ERR invalid max score format")),
